@@ -20,6 +20,8 @@ func main() {
 		cmdVerify(os.Args[2:])
 	case "check":
 		cmdCheck(os.Args[2:])
+	case "tables":
+		cmdTables(os.Args[2:])
 	default:
 		fmt.Fprintln(os.Stderr, "unknown command", os.Args[1])
 		os.Exit(2)
@@ -51,28 +53,67 @@ func cmdVerify(args []string) {
 			fmt.Fprintln(os.Stderr, err)
 			os.Exit(2)
 		}
-		x := exec.NewExec(p, fn, exec.ModeProof)
-		x.Spec = p.Specs[fn]
-		t1 := time.Now()
-		if err := x.Run(); err != nil {
-			fmt.Printf("%s: ENGINE: %v\n", ref, err)
-			bad++
-			continue
+		ncase := 1
+		if sp := p.Specs[fn]; sp != nil {
+			ncase = exec.SplitCases(sp)
 		}
-		cfg := &exec.SolverCfg{Timeout: time.Duration(*to) * time.Second, Workers: 16, KeepDir: *keep}
-		rs := x.Discharge(cfg)
-		proved, failed, byKind := exec.Summary(rs)
-		fmt.Printf("%s: %d obligations, %d proved, %d not proved (%.1fs exec+solve) kinds=%v\n", ref, len(rs), proved, failed, time.Since(t1).Seconds(), byKind)
-		sort.Slice(rs, func(i, j int) bool { return rs[i].Obl.Name < rs[j].Obl.Name })
-		for _, r := range rs {
-			if r.Verdict != exec.Proved || *verbose || r.Seconds > 2 {
-				fmt.Printf("   %-9s %-60s %s %.2fs size=%d\n", r.Verdict, r.Obl.Name, r.Solver, r.Seconds, r.Size)
+		for ci := 0; ci < ncase; ci++ {
+			x := exec.NewExec(p, fn, exec.ModeProof)
+			x.Spec = p.Specs[fn]
+			x.SplitIdx = ci
+			t1 := time.Now()
+			if err := x.Run(); err != nil {
+				fmt.Printf("%s: ENGINE: %v\n", ref, err)
+				bad++
+				continue
+			}
+			cfg := &exec.SolverCfg{Timeout: time.Duration(*to) * time.Second, Workers: 16, KeepDir: *keep}
+			rs := x.Discharge(cfg)
+			proved, failed, byKind := exec.Summary(rs)
+			fmt.Printf("%s: %d obligations, %d proved, %d not proved (%.1fs exec+solve) kinds=%v\n", ref, len(rs), proved, failed, time.Since(t1).Seconds(), byKind)
+			sort.Slice(rs, func(i, j int) bool { return rs[i].Obl.Name < rs[j].Obl.Name })
+			for _, r := range rs {
+				if r.Verdict != exec.Proved || *verbose || r.Seconds > 2 {
+					fmt.Printf("   %-9s %-60s %s %.2fs size=%d\n", r.Verdict, r.Obl.Name, r.Solver, r.Seconds, r.Size)
+				}
+			}
+			for _, n := range x.Notes {
+				fmt.Println("   note:", n)
+			}
+			bad += failed
+		}
+	}
+	if bad > 0 {
+		os.Exit(1)
+	}
+}
+
+func cmdTables(args []string) {
+	fs := flag.NewFlagSet("tables", flag.ExitOnError)
+	repo := fs.String("repo", "/repo", "repository")
+	fs.Parse(args)
+	p, err := exec.Load(*repo)
+	if err != nil {
+		fmt.Fprintln(os.Stderr, "load:", err)
+		os.Exit(2)
+	}
+	if err := p.RunInit(); err != nil {
+		fmt.Fprintln(os.Stderr, err)
+		os.Exit(2)
+	}
+	c := &checkCtx{P: p, Repo: *repo}
+	names := fs.Args()
+	if len(names) == 0 {
+		names = sortedLemmaNames()
+	}
+	bad := 0
+	for _, n := range names {
+		for _, r := range runTableLemma(c, n) {
+			fmt.Printf("%-8v %-28s %6d checks %.2fs %s\n", r.Proved, r.Name, r.Size, r.Seconds, r.Output)
+			if !r.Proved {
+				bad++
 			}
 		}
-		for _, n := range x.Notes {
-			fmt.Println("   note:", n)
-		}
-		bad += failed
 	}
 	if bad > 0 {
 		os.Exit(1)
